@@ -15,14 +15,14 @@ from .core import SBytes, SBool, SInt, SStr
 WS_CODES = (0x20, 0x09, 0x0A, 0x0D, 0x0B, 0x0C)
 
 
-def is_ws_code(c):
-    return z3.Or(*[c == k for k in WS_CODES])
+def is_ws_code(c, codes=WS_CODES):
+    return z3.Or(*[c == k for k in codes])
 
 
-def is_ws_free_ends(t):
-    """z3 condition: t is empty or neither its first nor its last byte is ASCII whitespace (<=> t.strip() == t)"""
+def is_ws_free_ends(t, codes=WS_CODES):
+    """z3 condition: t is empty or neither its first nor its last byte is in `codes` (<=> t.strip(codes) == t)"""
     n = z3.Length(t)
-    return z3.Or(n == 0, z3.And(z3.Not(is_ws_code(z3.StrToCode(z3.SubString(t, 0, 1)))), z3.Not(is_ws_code(z3.StrToCode(z3.SubString(t, n - 1, 1))))))
+    return z3.Or(n == 0, z3.And(z3.Not(is_ws_code(z3.StrToCode(z3.SubString(t, 0, 1)), codes)), z3.Not(is_ws_code(z3.StrToCode(z3.SubString(t, n - 1, 1)), codes))))
 
 
 _default_bytes_strip = METHODS[(SBytes, "strip")]
@@ -30,26 +30,29 @@ _default_bytes_strip = METHODS[(SBytes, "strip")]
 
 @method(SBytes, "strip")
 def _bytes_strip_lemmas(it, s, *a):
-    """bytes.strip() (no argument) as an uninterpreted function plus *true facts* about it, instantiated at the argument
-    (enabled by the scenario option `strip_lemmas=True`; over-approximate, every assumed fact holds for CPython's bytes.strip):
-      (1) the result is a substring of s and has no whitespace at either end;
-      (2) if s has no whitespace at either end, strip(s) == s;
-      (3) if s starts [ends] with a whitespace byte, strip(s) == strip(s[1:]) [strip(s[:-1])], and (2) for that shorter string."""
-    if a or not getattr(it.ex, "strip_lemmas", False) or s.concrete() is not None:
+    """bytes.strip() / bytes.strip(<constant bytes>) as an uninterpreted function plus *true facts* about it, instantiated at
+    the argument (enabled by the scenario option `strip_lemmas=True`; over-approximate, every assumed fact holds for CPython's
+    bytes.strip; W = ASCII whitespace without argument, else the bytes of the argument):
+      (1) the result is a substring of s and has no byte of W at either end;
+      (2) if s has no byte of W at either end, strip(s) == s;
+      (3) if s starts [ends] with a byte of W, strip(s) == strip(s[1:]) [strip(s[:-1])], and (2) for that shorter string."""
+    chars = it.resolve(a[0]).concrete() if len(a) == 1 and hasattr(it.resolve(a[0]), "concrete") else None
+    if (a and not chars) or len(a) > 1 or not getattr(it.ex, "strip_lemmas", False) or s.concrete() is not None:
         return _default_bytes_strip(it, s, *a)
-    f = uf("strip", _S, _S)
+    codes = tuple(sorted(set(chars))) if a else WS_CODES
+    f = uf("strip" if not a else "strip_" + bytes(codes).hex(), _S, _S)
     r = f(s.t)
     n = z3.Length(s.t)
     it.ex.assume(z3.Contains(s.t, r))
-    it.ex.assume(is_ws_free_ends(r))
-    it.ex.assume(z3.Implies(is_ws_free_ends(s.t), r == s.t))
+    it.ex.assume(is_ws_free_ends(r, codes))
+    it.ex.assume(z3.Implies(is_ws_free_ends(s.t, codes), r == s.t))
     tail = z3.simplify(z3.SubString(s.t, 1, n - 1))
     init = z3.simplify(z3.SubString(s.t, 0, n - 1))
-    it.ex.assume(z3.Implies(z3.And(n > 0, is_ws_code(z3.StrToCode(z3.SubString(s.t, 0, 1)))), r == f(tail)))
-    it.ex.assume(z3.Implies(is_ws_free_ends(tail), f(tail) == tail))
-    it.ex.assume(z3.Implies(z3.And(n > 0, is_ws_code(z3.StrToCode(z3.SubString(s.t, n - 1, 1)))), r == f(init)))
-    it.ex.assume(z3.Implies(is_ws_free_ends(init), f(init) == init))
-    it.ex.note("lib", "bytes.strip (uninterpreted + instantiated lemmas: ASCII whitespace SP HT LF CR VT FF)")
+    it.ex.assume(z3.Implies(z3.And(n > 0, is_ws_code(z3.StrToCode(z3.SubString(s.t, 0, 1)), codes)), r == f(tail)))
+    it.ex.assume(z3.Implies(is_ws_free_ends(tail, codes), f(tail) == tail))
+    it.ex.assume(z3.Implies(z3.And(n > 0, is_ws_code(z3.StrToCode(z3.SubString(s.t, n - 1, 1)), codes)), r == f(init)))
+    it.ex.assume(z3.Implies(is_ws_free_ends(init, codes), f(init) == init))
+    it.ex.note("lib", "bytes.strip (uninterpreted + instantiated lemmas; stripped set: " + (", ".join(hex(c) for c in codes)) + ")")
     return SBytes(r)
 
 
